@@ -382,7 +382,14 @@ func genPrw(r *rand.Rand, c *Case, kind int) {
 		total := envInt("C03_THRESHOLD", 1<<20)/26 + flushLimit + r.Intn(2*flushLimit)
 		ns := 3 + r.Intn(4)
 		for i := 0; i < ns; i++ {
-			c.Body.Prw = append(c.Body.Prw, mk(i, total/ns+r.Intn(50)))
+			// a fixed scrape interval and a constant value per series: the case text stays small (arithmetic progressions)
+			s := mk(i, 0)
+			t, step, v := int64(1700000000000)+r.Int63n(1000000), int64(1000*(1+r.Intn(30))), genFloat(r)
+			for j := total/ns + r.Intn(50); j > 0; j-- {
+				s.Samples = append(s.Samples, PSample{TsMs: t, Val: v})
+				t += step
+			}
+			c.Body.Prw = append(c.Body.Prw, s)
 		}
 	case 5: // the 1000th point is the first of several samples of the second series
 		c.Class = "flush-mid-series-999+k"
@@ -427,8 +434,38 @@ func genInflux(r *rand.Rand, c *Case) {
 		}
 		l.Ts = genTs(r, r.Intn(2)) / c.Body.Precision
 		if r.Intn(4) == 0 {
-			l.Fields = []IField{{Name: "message", Kind: "str", S: Str(pick(r, []string{"hello world", "x", "a=b c", "with \"quotes\"", "über"}))}}
+			l.Fields = []IField{{Name: "message", Kind: "str", S: Str(pick(r, []string{"hello world", "x", "a=b c", "with \"quotes\"", "über", "null", "tab\there", "back\\slash", ""}))}}
 			flag(c, "message")
+			if r.Intn(2) == 0 {
+				// further fields: the text of the row is their logfmt rendering, "message" first, the others in Go's map order
+				flag(c, "message-with-fields")
+				if r.Intn(6) == 0 {
+					l.Fields[0] = IField{Name: "message", Kind: "int", I: r.Int63n(2000) - 1000}
+				}
+				usedF := map[string]bool{}
+				for j := 1 + r.Intn(3); j > 0; j-- {
+					name := pick(r, []string{"level", "status code", "k=v", "ünï", "n", "q\"uote", "host"})
+					if usedF[name] {
+						continue
+					}
+					usedF[name] = true
+					f := IField{Name: Str(name)}
+					switch r.Intn(9) {
+					case 0, 1:
+						f.Kind, f.I = "int", r.Int63()-(1<<62)
+					case 2:
+						f.Kind, f.I = "uint", r.Int63()
+					case 3:
+						f.Kind, f.I = "bool", int64(r.Intn(2))
+					case 4:
+						f.Kind, f.F = "float", float64(r.Intn(2000))/8
+						flag(c, "float-in-message-line")
+					default:
+						f.Kind, f.S = "str", Str(pick(r, []string{"info", "two words", "a=b", "null", "ü", "say \"hi\"", "x\ty", "", "\ufffd", "plain-text_1.2"}))
+					}
+					l.Fields = append(l.Fields, f)
+				}
+			}
 		} else {
 			usedF := map[string]bool{}
 			nf := 1 + r.Intn(4)
